@@ -302,7 +302,33 @@ fn fstring_literal(c: &mut Choices) -> LitCase {
     let mut after_continuation = false;
     for _ in 0..n {
         let was_after = std::mem::replace(&mut after_continuation, false);
-        match c.below(7) {
+        match c.below(8) {
+            7 => {
+                // an escape directly followed by text that looks like the start of another escape or
+                // by an interpolation: `\\u{x}` is a backslash, the letter u and the value of x
+                let (esc, v) = [("\\\\", "\\"), ("\\n", "\n"), ("\\t", "\t"), ("\\\"", "\""), ("\\u{5c}", "\\"), ("\\x5c", "\\")][c.below(6)];
+                text.push_str(esc);
+                val.push_str(v);
+                match c.below(4) {
+                    0 => {
+                        text.push_str("u{x}");
+                        val.push_str("u7");
+                    }
+                    1 => {
+                        text.push_str("x{x}");
+                        val.push_str("x7");
+                    }
+                    2 => {
+                        text.push_str("{x}");
+                        val.push('7');
+                    }
+                    _ => {
+                        text.push_str("u{{x}}");
+                        val.push_str("u{x}");
+                    }
+                }
+                feats += 2;
+            }
             6 => {
                 // line continuation in the text of an f-string
                 text.push_str("\\\n");
